@@ -3,6 +3,7 @@ package c05
 import (
 	"fmt"
 	"sort"
+	"testing/synctest"
 	"time"
 
 	"github.com/dapr/kit/cron"
@@ -28,11 +29,32 @@ import (
 
 var chainKinds = []string{"none", "recover", "delay", "skip", "recover+delay", "recover+skip"}
 
-func pickChain(rng *mon.RNG) string {
+// pickChain: DelayIfStillRunning parks a delayed invocation on a sync.Mutex,
+// which is not a durable wait for synctest: the bubble's clock stands still and
+// synctest.Wait does not return while one is waiting. Delay chains therefore
+// run in jump mode only (own clock, mon.Quiesce as the barrier).
+func pickChain(rng *mon.RNG, allowDelay bool) string {
 	if rng.Chance(1, 2) {
 		return "none"
 	}
-	return chainKinds[1+rng.Intn(len(chainKinds)-1)]
+	if allowDelay && rng.Bool() {
+		return rng.PickStr("delay", "delay", "recover+delay")
+	}
+	for {
+		k := chainKinds[1+rng.Intn(len(chainKinds)-1)]
+		if allowDelay || chainBase(k) != "delay" {
+			return k
+		}
+	}
+}
+
+// barrier is the quiescence barrier of the lock-step runners.
+func (w *world) barrier() {
+	if chainBase(w.chain) == "delay" {
+		mon.Quiesce()
+		return
+	}
+	synctest.Wait()
 }
 
 func chainBase(kind string) string {
